@@ -154,6 +154,9 @@ class PyUnit:
         st.heap = e.h0.copy()
         ex.opt["allow_exc"] = {k: f(e) for k, f in self.raises.items()}
         st.path.extend(pre)
+        if self.options.get("tuple_keys"):
+            from .pyfe import TUPLE_AXIOMS
+            st.path.append(TUPLE_AXIOMS)
         if check_sat(st.path) != z3.sat:
             res.cover_failures.append("precondition of %s is not satisfiable (or undecided)" % self.uid)
         else:
